@@ -74,7 +74,8 @@ def generate(rng, tier, cls):
 
     kind, buf = gen.gen_stream(rng)
     scn = {'actors': [prod], 'schedule': [], 'faults': [],
-           'block_size': bs, 'stream': kind, 'buf': buf}
+           'block_size': bs, 'stream': kind, 'buf': buf,
+           'shadow': rng.below(50) if rng.chance(0.06) else None}
 
     if cls == 'cuts_foreign' and rng.chance(0.02):
         # a dump-like diff of several hundred KiB in fixed-length lines
@@ -298,7 +299,8 @@ def execute(scn, L):
     out.evals = 0
     bs = scn.get('block_size')
     skw = {'stream': scn.get('stream') if scn.get('stream') in
-           ('sim', 'bytesio', 'buffered') else 'sim', 'buf': scn.get('buf')}
+           ('sim', 'bytesio', 'buffered') else 'sim', 'buf': scn.get('buf'),
+           'extras': {'shadow': scn.get('shadow')}}
     crash = [f for f in scn.get('faults', ()) if f['kind'] == 'crash']
     lenf = [f for f in scn.get('faults', ()) if f['kind'] == 'length_fault']
 
